@@ -1,0 +1,17 @@
+//go:build verif
+
+package v3
+
+// Contracts for the verification framework in /verif (comment-only file; compiled
+// only with -tags verif, where it contributes nothing but these comments).
+
+//@ // ---- C16: the v1.1.0 -> v1.2.0 store migration copies every pool record field by field (no value changes hands) ----
+//@ func setNewAccountVestingPools(store, cdc, oldAccPools) (err)
+//@   requires forall a: int, j: int :: {oldAccPools[a].VestingPools[j]} 0 <= a && a < len(oldAccPools) && 0 <= j && j < len(oldAccPools[a].VestingPools) ==> oldAccPools[a].VestingPools[j] != nil
+//@   modifies $kvHas, $kvVal
+//@   prop C16
+//@ loop setNewAccountVestingPools#2
+//@   invariant 0 <= \i && \i <= len(oldPools) && len(newPools) == \i && off(newPools) == 0
+//@   invariant forall j: int :: {newPools[j]} 0 <= j && j < \i ==> newPools[j] != nil && newPools[j].Name == oldPools[j].Name && newPools[j].VestingType == oldPools[j].VestingType
+//@     && newPools[j].LockStart == oldPools[j].LockStart && newPools[j].LockEnd == oldPools[j].LockEnd
+//@     && newPools[j].InitiallyLocked == oldPools[j].InitiallyLocked && newPools[j].Withdrawn == oldPools[j].Withdrawn && newPools[j].Sent == oldPools[j].Sent
